@@ -312,6 +312,18 @@ def cmp(sh, key, case, got, want, tol, circle=False):
 def check_config(sh, mods, pars, sc, fc, om, case, full=True):
     tr, cf_mod, pbp, par_mod = mods
     xyz, tth, eta, ds, g = reference(tr, pars, sc, fc, om)
+    # whole-pixel positions handed over as INTEGER arrays (pixel indices from np.mgrid, a look-up table over the detector): the same lab
+    # coordinates as for the same numbers written as floats
+    pix = np.array([np.round(sc[:8]), np.round(fc[:8])]).astype(np.int64)
+    det_ = {k: pars[k] for k in ("y_center", "y_size", "tilt_y", "z_center", "z_size", "tilt_z", "tilt_x", "distance", "o11", "o12", "o21", "o22")}
+    keep_pix = pix.copy()
+    xi = tr.compute_xyz_lab(pix, **det_)
+    xf = tr.compute_xyz_lab(pix.astype(float), **det_)
+    if not np.array_equal(pix, keep_pix):
+        sh.violation("compute_xyz_lab:modifies-the-pixel-positions-it-is-given", case, {})
+        return False
+    if not cmp(sh, "compute_xyz_lab[integer pixel positions]", case, xi, xf, 1e-9 * (1.0 + np.abs(xf).max())):
+        return False
     n = len(sc)
     ok = True
     # ---- C route
